@@ -651,3 +651,39 @@ def r14_11(ctx):
                     f"load_network_info(load_devices=True) records link keys {kt!r}, children {ch!r}, network addresses {na!r}; children are listed by EUI64 and "
                     "nwk_addresses maps EUI64 -> network address (write_network_info looks children up that way)", func=g, trace=p.trace(20))
     ctx.anchor(done >= 1, "load_network_info(load_devices=True) completes")
+
+
+@rule("R14.12", ["C14"], "T-FUN", floor=4)
+def r14_12(ctx):
+    """The rewritable EUI64 token is looked for under *both* candidate ids: when the first candidate (the NCP-firmware id) is
+    answered with any non-success status - not found, erased, a fatal error - and the second (the RCP-firmware id) holds the
+    token, _get_nv3_restored_eui64_key returns the second id; can_rewrite_custom_eui64 then says yes and the restore writes the
+    backup's EUI64 (giving up after the first answer leaves the factory address in place and the restored trust-centre data
+    name an address the node does not have)."""
+    repo = ctx.repo
+    ez = repo.cls("bellows.ezsp", "EZSP")
+    f = ez.method("_get_nv3_restored_eui64_key")
+    ctx.fn(f)
+    es = repo.cls(NAMED, "EmberStatus").members()
+    sl = repo.cls(NAMED, "sl_Status").members()
+    keys = repo.cls(NAMED, "NV3KeyId").members()
+    first, second = keys["CREATOR_STACK_RESTORED_EUI64"], keys["NVM3KEY_STACK_RESTORED_EUI64"]
+    for label, bad, good in (("legacy:NOT_FOUND", es["NOT_FOUND"], es["SUCCESS"]), ("legacy:TABLE_ENTRY_ERASED", es["TABLE_ENTRY_ERASED"], es["SUCCESS"]),
+                             ("legacy:ERR_FATAL", es["ERR_FATAL"], es["SUCCESS"]), ("unified:NOT_FOUND", sl["NOT_FOUND"], sl["OK"]), ("unified:FAIL", sl["FAIL"], sl["OK"])):
+        asked = []
+
+        def token(px_, t, a, k, fr, bad=bad, good=good, asked=asked):
+            key = k.get("token", a[0] if a else None)
+            asked.append(key)
+            st_ = good if key == second else bad
+            return Outcomes(OK(Obj(TypeRef("TokenData"), {"status": st_, "value": b"\x01\x02\x03\x04\x05\x06\x07\x08"}, tag=f"rsp{len(asked)}")))
+
+        px = PX(repo, models=[("self.getTokenData", token), ("t.EUI64.deserialize", lambda px_, t, a, k, fr: (Sym("eui64"), b""))], inline=same_class())
+        paths = px.explore(f, lambda: (asked.clear() or self_obj(ez, {}), {}))
+        ctx.anchor(len(paths) == 1, f"_get_nv3_restored_eui64_key: one path on concrete answers ({len(paths)})")
+        p = paths[0]
+        ctx.paths += 1
+        ctx.require(p.terminal == "return" and p.value == second, f"nv3-second-candidate:{label}",
+                    f"first candidate token answered {bad!r}, second holds the token: the lookup returns {p.value!r} after asking for "
+                    f"{[getattr(e.kwargs.get('token', e.args[0] if e.args else None), 'name', None) for e in p.events if e.kind == 'await' and e.what == 'self.getTokenData']}; "
+                    f"it must return {second!r}", func=f, trace=p.trace(10))
